@@ -235,3 +235,230 @@ Proof. rewrite decode_is_spec. intros E. injection E as <-. apply decode_view. Q
 
 Lemma view_decode l r : view l r -> decode l = Ok r.
 Proof. intros V. rewrite decode_is_spec, (view_sound l r V). reflexivity. Qed.
+
+(* ------------------------------------------------------------- what body_spec accepts *)
+
+Definition sapl (o : option Z) : bytes := match o with Some s => [s] | None => [] end.
+Definition is_some (o : option Z) : bool := match o with Some _ => true | None => false end.
+Definition ext_of (o : option Z) : Z := match o with Some _ => 128 | None => 0 end.
+Definition strip (b : Z) : Z := if negb (Z.land b 128 =? 0) then Z.land b 127 else b.
+
+Lemma take_sap_inv has p o p' : take_sap has p = Some (o, p') -> p = sapl o ++ p' /\ has = is_some o.
+Proof.
+  unfold take_sap. destruct has.
+  - destruct p as [|s p0]; [discriminate|]. intros E. injection E as <- <-. split; reflexivity.
+  - intros E. injection E as <- <-. split; reflexivity.
+Qed.
+
+Lemma body_spec_accept da' sa' fcb payload cks e bl t n :
+  body_spec da' sa' fcb payload cks e bl = Accept t n ->
+  exists fc dsap ssap pdu,
+    t = TData (mkHeader (strip da') (strip sa') dsap ssap fc) pdu /\ n = bl /\
+    fc_from_byte fcb = Some fc /\ payload = sapl dsap ++ sapl ssap ++ pdu /\
+    negb (Z.land da' 128 =? 0) = is_some dsap /\ negb (Z.land sa' 128 =? 0) = is_some ssap /\
+    cks = sum8 (da' :: sa' :: fcb :: payload) /\ e = ED.
+Proof.
+  unfold body_spec. destruct (fc_from_byte fcb) as [fc|]; [|discriminate].
+  destruct (take_sap _ payload) as [[dsap p1]|] eqn:T1; [|discriminate].
+  destruct (take_sap _ p1) as [[ssap p2]|] eqn:T2; [|discriminate].
+  destruct (Z.eqb_spec cks (sum8 (da' :: sa' :: fcb :: payload))) as [Ec|_]; cbn [negb]; [|discriminate].
+  destruct (Z.eqb_spec e ED) as [Ee|_]; cbn [negb]; [|discriminate].
+  intros E. injection E as <- <-.
+  apply take_sap_inv in T1. destruct T1 as [-> T1]. apply take_sap_inv in T2. destruct T2 as [-> T2].
+  exists fc, dsap, ssap, p2. unfold strip. repeat split; assumption.
+Qed.
+
+Lemma body_spec_bad_checksum da' sa' fcb payload cks e bl :
+  cks <> sum8 (da' :: sa' :: fcb :: payload) -> body_spec da' sa' fcb payload cks e bl = Reject.
+Proof.
+  intros H. unfold body_spec. destruct (fc_from_byte fcb) as [fc|]; [|reflexivity].
+  destruct (take_sap _ payload) as [[dsap p1]|]; [|reflexivity].
+  destruct (take_sap _ p1) as [[ssap p2]|]; [|reflexivity].
+  destruct (Z.eqb_spec cks (sum8 (da' :: sa' :: fcb :: payload))) as [Ec|_]; [contradiction|reflexivity].
+Qed.
+
+Lemma body_spec_bad_ed da' sa' fcb payload cks e bl :
+  e <> ED -> body_spec da' sa' fcb payload cks e bl = Reject.
+Proof.
+  intros H. unfold body_spec. destruct (fc_from_byte fcb) as [fc|]; [|reflexivity].
+  destruct (take_sap _ payload) as [[dsap p1]|]; [|reflexivity].
+  destruct (take_sap _ p1) as [[ssap p2]|]; [|reflexivity].
+  destruct (negb (cks =? _)); [reflexivity|].
+  destruct (Z.eqb_spec e ED) as [Ee|_]; [contradiction|reflexivity].
+Qed.
+
+Lemma body_spec_cases da' sa' fcb payload cks e bl :
+  body_spec da' sa' fcb payload cks e bl = Reject \/
+  exists t, body_spec da' sa' fcb payload cks e bl = Accept t bl.
+Proof.
+  unfold body_spec. destruct (fc_from_byte fcb) as [fc|]; [|auto].
+  destruct (take_sap _ payload) as [[dsap p1]|]; [|auto].
+  destruct (take_sap _ p1) as [[ssap p2]|]; [|auto].
+  destruct (negb (cks =? _)); [auto|]. destruct (negb (e =? ED)); [auto|]. right. eexists. reflexivity.
+Qed.
+
+(* inversion of the view for the three accepting shapes *)
+Lemma view_accept_data l h pdu n : view l (Accept (TData h pdu) n) ->
+  exists pre da' sa' fcb rest,
+    let payload := sapl (h_dsap h) ++ sapl (h_ssap h) ++ pdu in
+    data_shape pre (length payload) /\
+    l = pre ++ da' :: sa' :: fcb :: payload ++ sum8 (da' :: sa' :: fcb :: payload) :: ED :: rest /\
+    n = (length pre + length payload + 5)%nat /\
+    fc_from_byte fcb = Some (h_fc h) /\
+    h_da h = strip da' /\ h_sa h = strip sa' /\
+    negb (Z.land da' 128 =? 0) = is_some (h_dsap h) /\ negb (Z.land sa' 128 =? 0) = is_some (h_ssap h).
+Proof.
+  intros V. inversion V as [ | | | | | | | | |pre n0 da' sa' fcb payload cks e rest Hsh Hn El Er]. subst n0.
+  apply body_spec_accept in Er.
+  destruct Er as (fc & dsap & ssap & pdu' & Et & -> & Hfc & Hp & Hd & Hs & -> & ->).
+  injection Et as -> ->. cbn [h_da h_sa h_dsap h_ssap h_fc]. subst payload.
+  exists pre, da', sa', fcb, rest. cbv zeta. repeat split; try assumption; reflexivity.
+Qed.
+
+Lemma view_accept_token l da sa n : view l (Accept (TToken da sa) n) -> n = 3%nat /\ exists t, l = SD4 :: da :: sa :: t.
+Proof.
+  intros V. inversion V as [ | | |da0 sa0 t| | | | | |pre n0 da' sa' fcb payload cks e rest Hsh Hn El Er].
+  - split; [reflexivity|]. exists t. reflexivity.
+  - apply body_spec_accept in Er. destruct Er as (fc & dsap & ssap & pdu' & Et & _). discriminate.
+Qed.
+
+Lemma view_accept_sc l n : view l (Accept TShortConf n) -> n = 1%nat /\ exists t, l = SC :: t.
+Proof.
+  intros V. inversion V as [ |t| | | | | | | |pre n0 da' sa' fcb payload cks e rest Hsh Hn El Er].
+  - split; [reflexivity|]. exists t. reflexivity.
+  - apply body_spec_accept in Er. destruct Er as (fc & dsap & ssap & pdu' & Et & _). discriminate.
+Qed.
+
+(* ------------------------------------------------------------- announced length *)
+
+Lemma need_shape pre n da' sa' fcb payload cks e rest :
+  data_shape pre n -> length payload = n ->
+  need (pre ++ da' :: sa' :: fcb :: payload ++ cks :: e :: rest) = (length pre + n + 5)%nat.
+Proof.
+  intros Hsh Hn. revert Hn. destruct Hsh as [ | |n]; intros Hn; cbn [app]; unfold need; delim_eval; cbv iota.
+  - reflexivity.
+  - reflexivity.
+  - destruct (Nat.ltb_spec (length (SD2 :: Z.of_nat (n + 3) :: Z.of_nat (n + 3) :: SD2 :: da' :: sa' :: fcb :: payload ++ cks :: e :: rest)) 6) as [H|_].
+    { cbn [length] in H. lia. }
+    cbn [nth length]. lia.
+Qed.
+
+Lemma shape_length (pre : bytes) n da' sa' fcb (payload : bytes) cks e (rest : bytes) :
+  length payload = n ->
+  length (pre ++ da' :: sa' :: fcb :: payload ++ cks :: e :: rest) = (length pre + n + 5 + length rest)%nat.
+Proof. intros <-. rewrite app_length. cbn [length]. rewrite app_length. cbn [length]. lia. Qed.
+
+(* NeedMore only when shorter than the announced length *)
+Lemma needmore_short l : decode l = Ok NeedMore -> (length l < need l)%nat.
+Proof.
+  intros D. apply decode_view' in D.
+  inversion D as [ | |t Ht| | |b0 t Hd Hl|t Hl| |b1 t Hb Hl Hs|pre n0 da' sa' fcb payload cks e rest Hsh Hn El Er].
+  - cbn. lia.
+  - unfold need. delim_eval. cbv iota. cbn [length]. lia.
+  - destruct (is_data_delim_cases b0 Hd) as [->|[->| ->]]; unfold need; delim_eval; cbv iota; try lia.
+    destruct (Nat.ltb_spec (length (SD2 :: t)) 6) as [_|Hq]; lia.
+  - unfold need. delim_eval. cbv iota. lia.
+  - unfold need. delim_eval. cbv iota.
+    destruct (Nat.ltb_spec (length (SD2 :: b1 :: b1 :: SD2 :: t)) 6) as [Hq|_]; [cbn [length] in Hq; lia|].
+    cbn [nth length]. lia.
+  - exfalso. exact (body_spec_not_needmore _ _ _ _ _ _ _ Er).
+Qed.
+
+Lemma long_enough_decides l : (need l <= length l)%nat -> decode l <> Ok NeedMore.
+Proof. intros H D. apply needmore_short in D. lia. Qed.
+
+(* ------------------------------------------------------------- Accept lies inside the input *)
+
+Definition pdu_offset (l : bytes) (h : header) : nat :=
+  ((if (nth 0 l 0%Z =? SD2)%Z then 7 else 4) + has_sap (h_dsap h) + has_sap (h_ssap h))%nat.
+
+Lemma sapl_length o : length (sapl o) = has_sap o.
+Proof. destruct o; reflexivity. Qed.
+
+Lemma accept_inside l t n : decode l = Ok (Accept t n) ->
+  (n <= length l)%nat /\ n = need l /\
+  match t with
+  | TData h pdu =>
+      (pdu_offset l h + length pdu + 2 = n)%nat /\ firstn (length pdu) (skipn (pdu_offset l h) l) = pdu
+  | TToken da sa => n = 3%nat /\ firstn 3 l = [SD4; da; sa]
+  | TShortConf => n = 1%nat /\ firstn 1 l = [SC]
+  end.
+Proof.
+  intros D. apply decode_view' in D. destruct t as [h pdu|da sa| ].
+  - apply view_accept_data in D.
+    destruct D as (pre & da' & sa' & fcb & rest & Hsh & -> & -> & Hfc & _). cbv zeta in Hsh.
+    set (payload := sapl (h_dsap h) ++ sapl (h_ssap h) ++ pdu) in *.
+    rewrite (need_shape pre (length payload)) by (exact Hsh || reflexivity).
+    rewrite (shape_length pre (length payload)) by reflexivity.
+    split; [lia|]. split; [reflexivity|].
+    assert (Hoff : pdu_offset (pre ++ da' :: sa' :: fcb :: payload ++ sum8 (da' :: sa' :: fcb :: payload) :: ED :: rest) h
+                   = (length pre + 3 + has_sap (h_dsap h) + has_sap (h_ssap h))%nat).
+    { unfold pdu_offset. destruct Hsh; cbn [app nth length]; delim_eval; cbv iota; lia. }
+    rewrite Hoff. split.
+    + subst payload. rewrite !app_length, !sapl_length. lia.
+    + replace (pre ++ da' :: sa' :: fcb :: payload ++ sum8 (da' :: sa' :: fcb :: payload) :: ED :: rest)
+        with ((pre ++ [da'; sa'; fcb] ++ sapl (h_dsap h) ++ sapl (h_ssap h)) ++ pdu ++ sum8 (da' :: sa' :: fcb :: payload) :: ED :: rest).
+      2:{ subst payload. rewrite <- !app_assoc. cbn [app]. rewrite <- ?app_assoc. reflexivity. }
+      rewrite skipn_app_exact by (rewrite !app_length, !sapl_length; cbn [length]; lia).
+      apply firstn_app_exact. reflexivity.
+  - apply view_accept_token in D. destruct D as (-> & t & ->). cbn [length firstn]. unfold need. delim_eval.
+    repeat split; lia.
+  - apply view_accept_sc in D. destruct D as (-> & t & ->). cbn [length firstn]. unfold need. delim_eval.
+    repeat split; lia.
+Qed.
+
+(* ------------------------------------------------------------- prefix consistency *)
+
+Lemma accept_stable l t n ext : decode l = Ok (Accept t n) -> decode (l ++ ext) = Ok (Accept t n).
+Proof.
+  intros D. apply decode_view' in D. apply view_decode.
+  inversion D as [ |t0| |da sa t0| | | | | |pre n0 da' sa' fcb payload cks e rest Hsh Hn El Er].
+  - cbn [app]. apply V_sc.
+  - cbn [app]. apply V_tok.
+  - rewrite <- app_assoc. cbn [app]. rewrite <- app_assoc. cbn [app]. rewrite Er.
+    rewrite <- Er. apply V_body; assumption.
+Qed.
+
+Lemma reject_stable l ext : decode l = Ok Reject -> decode (l ++ ext) = Ok Reject.
+Proof.
+  intros D. apply decode_view' in D. apply view_decode.
+  inversion D as [ | | | |b0 t Hd| | |b1 b2 b3 t Hl Hbad| |pre n0 da' sa' fcb payload cks e rest Hsh Hn El Er].
+  - cbn [app]. apply V_nodelim, Hd.
+  - cbn [app]. apply V_sd2_badhdr; [rewrite app_length; lia|exact Hbad].
+  - rewrite <- app_assoc. cbn [app]. rewrite <- app_assoc. cbn [app]. rewrite Er.
+    rewrite <- Er. apply V_body; assumption.
+Qed.
+
+(* every proper prefix of something the decoder accepts entirely is "need more" *)
+Lemma proper_prefix_waits F t k :
+  decode F = Ok (Accept t (length F)) -> (k < length F)%nat -> decode (firstn k F) = Ok NeedMore.
+Proof.
+  intros DF Hk. rewrite decode_is_spec. destruct (decode_spec (firstn k F)) as [ | |t' n'] eqn:E; [reflexivity| |].
+  - assert (D : decode (firstn k F) = Ok Reject) by (rewrite decode_is_spec, E; reflexivity).
+    apply (reject_stable _ (skipn k F)) in D. rewrite firstn_skipn in D. congruence.
+  - assert (D : decode (firstn k F) = Ok (Accept t' n')) by (rewrite decode_is_spec, E; reflexivity).
+    pose proof (accept_inside _ _ _ D) as (Hn & _). rewrite firstn_length in Hn.
+    apply (accept_stable _ _ _ (skipn k F)) in D. rewrite firstn_skipn in D.
+    rewrite DF in D. injection D as _ Hlen. lia.
+Qed.
+
+Lemma valid_prefix_waits_data h pdu k :
+  wf_header h -> (length_byte h (length pdu) <= 249)%nat -> (k < length (frame_spec h pdu))%nat ->
+  decode (firstn k (frame_spec h pdu)) = Ok NeedMore.
+Proof.
+  intros Hwf Hlb Hk. apply (proper_prefix_waits _ (TData h pdu)); [|exact Hk].
+  pose proof (decode_data_frame h pdu [] Hwf Hlb) as D. rewrite app_nil_r in D.
+  rewrite frame_spec_length. exact D.
+Qed.
+
+Lemma valid_prefix_waits_token da sa k : (k < 3)%nat -> decode (firstn k (encode_token da sa)) = Ok NeedMore.
+Proof.
+  intros Hk. apply (proper_prefix_waits _ (TToken da sa)); [|exact Hk].
+  pose proof (decode_token_frame da sa []) as D. rewrite app_nil_r in D. exact D.
+Qed.
+
+Lemma valid_prefix_waits_sc k : (k < 1)%nat -> decode (firstn k encode_sc) = Ok NeedMore.
+Proof.
+  intros Hk. apply (proper_prefix_waits _ TShortConf); [|exact Hk].
+  pose proof (decode_sc_frame []) as D. rewrite app_nil_r in D. exact D.
+Qed.
